@@ -15,6 +15,7 @@ pub fn c04(tier: Tier) -> Vec<Space> {
         ball(c, 2, variants()),
         field_full("MSG-FIELD(int<=14)", c, variants(), sel_int, 1, 14),
         field_pairs(c, variants()),
+        field_triples(c, variants()),
         dense(c, variants()),
         via_line(c),
     ];
@@ -40,7 +41,7 @@ pub fn c04(tier: Tier) -> Vec<Space> {
 
 pub fn c09(_tier: Tier) -> Vec<Space> {
     let c = cfg("C09", true);
-    vec![lengths(c), ball1_all_lengths(c, 64)]
+    vec![lengths(c), ball1_all_lengths(c, 64), dense(c, variants()), field_triples(c, variants())]
 }
 
 pub fn c10(tier: Tier) -> Vec<Space> {
@@ -50,6 +51,7 @@ pub fn c10(tier: Tier) -> Vec<Space> {
         field_wide("MSG-FIELD-WIDE(coord)", c, variants(), sel_scaled, 19, 2, 2),
     ];
     v.push(dense(c, variants()));
+    v.push(field_triples(c, variants()));
     if tier == Tier::Thorough {
         complete_coords(c, &mut v, &[1, 4, 9, 11, 18, 19, 21]);
     }
@@ -78,6 +80,7 @@ pub fn c11(tier: Tier) -> Vec<Space> {
         field_full("MSG-FIELD(optional<=18)", c, variants(), sel_scaled_opt, 1, 18),
         field_wide("MSG-FIELD-WIDE(coord)", c, variants(), sel_scaled, 19, 2, 2),
         dense(c, variants()),
+        field_triples(c, variants()),
     ];
     if tier == Tier::Thorough {
         complete_coords(c, &mut v, &[2, 21]);
@@ -91,6 +94,7 @@ pub fn c12(_tier: Tier) -> Vec<Space> {
         field_full("MSG-ENUM", c, variants(), sel_enum, 1, 8),
         super::c12conv::ship_type_conversions(),
         dense(c, variants()),
+        field_triples(c, variants()),
     ]
 }
 
@@ -101,6 +105,7 @@ pub fn c13(tier: Tier) -> Vec<Space> {
         text_deviations(c, vars.clone(), false),
         text_trim(c, vars.clone()),
         text_lengths(c, 132),
+        text_adjacent(c, vars.clone()),
         dense(c, vars.clone()),
     ];
     let b = vars.iter().find(|x| x.name == "T24.B").unwrap().clone();
@@ -117,17 +122,25 @@ pub fn c13(tier: Tier) -> Vec<Space> {
 
 pub fn c14(_tier: Tier) -> Vec<Space> {
     let c = cfg("C14", true);
-    vec![lengths(c), ball1_all_lengths(c, 64), text_lengths(c, 132), binary(c, 130), via_line(c)]
+    vec![
+        lengths(c),
+        ball1_all_lengths(c, 64),
+        text_lengths(c, 132),
+        binary(c, 130),
+        via_line(c),
+        dense(c, variants()),
+        field_triples(c, variants()),
+    ]
 }
 
 pub fn c15(_tier: Tier) -> Vec<Space> {
     let c = cfg("C15", true);
-    vec![binary(c, 130)]
+    vec![binary(c, 130), binary_appid(c), dense(c, variants())]
 }
 
 pub fn c16(_tier: Tier) -> Vec<Space> {
     let c = cfg("C16", false);
-    vec![radio(c), dense(c, variants())]
+    vec![radio(c), dense(c, variants()), field_triples(c, variants())]
 }
 
 /// C01 (totality) over the payload functions: only panics are reported.
